@@ -12,7 +12,8 @@ RULE = ("programs: loop nests <= 3 over lists, sets (ints/strings), maps (keys/v
         "strings, `while` with logged condition, if/elif/else with logged conditions, break/continue/return planted at "
         "random statement positions (also inside do..finally inside loops and inside called functions); every "
         "comprehension form (list/set/map; single, product, also-for; with/without filter) paired with its explicit "
-        "loop; a case is one program; non-trivial = some wrong-semantics mode (break exits all loops, continue as "
+        "loop; sets and map keys of mixed and nested kinds (booleans next to ints, sets of sets, lists, strings, NULL) "
+        "whose visiting order must ascend under the language's own <; a case is one program; non-trivial = some wrong-semantics mode (break exits all loops, continue as "
         "break, return leaves only the loop, condition tested once, unsorted set/map iteration, filter ignored, "
         "also-for stops at the shorter) changes its observable outcome; distinct by program text")
 ASSUMPTIONS = [
@@ -28,7 +29,8 @@ SHARD_TIMEOUT = {"quick": 300, "thorough": 3000}
 def plan(tier, seed):
     n = 10 if tier == "quick" else 40
     return ([{"kind": "control", "n": 600 if tier == "quick" else 3500} for _ in range(n)]
-            + [{"kind": "comprehensions", "n": 700 if tier == "quick" else 4000} for _ in range(n // 2)])
+            + [{"kind": "comprehensions", "n": 700 if tier == "quick" else 4000} for _ in range(n // 2)]
+            + [{"kind": "order", "n": 500 if tier == "quick" else 4000} for _ in range(2 if tier == "quick" else 8)])
 
 
 def multiset(av):
@@ -40,6 +42,8 @@ def multiset(av):
 def run_shard(spec, ctx):
     R = differ.RealRunner(secure=True, legacy=True)
     r = ctx.rng
+    if spec["kind"] == "order":
+        return run_order(spec, ctx)
     if spec["kind"] == "control":
         for _ in range(spec["n"]):
             g = programs.Gen(r)
@@ -66,12 +70,80 @@ def run_shard(spec, ctx):
                 ctx.note("explicit loop does not parse: " + text2[:300])
 
 
+MIXED_ELEMS = ["TRUE", "FALSE", "0", "1", "2", "10", "-1", "1.5", "0.5", "'a'", "'b'", "'1'", "'TRUE'", "''", "NULL",
+               "<<>>", "<<1>>", "<<2>>", "<<1, 2>>", "<<1, 2, 3>>", "<<'a'>>", "[1]", "[2]", "[1, 2]", "[]", "['a']",
+               "<<<1 => 2>>>", "<<<>>>", "//a//", "date('20200101')", "date('20191231')", "<< <<1>> >>"]
+
+ORDER_PROG = ("def prev = NULL; def first = TRUE; def ok = TRUE; def seen = []; "
+              "for x in {KW}{C} do if not first then do if not (prev < x) then ok = FALSE end; first = FALSE; prev = x; append(seen, x) end; "
+              "[ok, seen == [y for y in {KW}{C}], {EXTRA}]")
+
+
+def strict_total(matrix):
+    try:
+        m = [[c == ("bool", True) for c in row[1]] for row in matrix[1]]
+    except Exception:  # noqa
+        return False
+    n = len(m)
+    for i in range(n):
+        if m[i][i]:
+            return False
+        for j in range(n):
+            if i != j and m[i][j] == m[j][i]:
+                return False
+            for k in range(n):
+                if m[i][j] and m[j][k] and not m[i][k]:
+                    return False
+    return True
+
+
+def run_order(spec, ctx):
+    """model-free: whatever the element kinds, a for loop must visit set elements / map keys in ascending order of the
+    language's own <, and comprehension, list() and for must agree on that order"""
+    import ckl.functions
+    r = ctx.rng
+    R = differ.RealRunner(secure=True, legacy=True)
+    for _ in range(spec["n"]):
+        n = r.randint(2, 6)
+        elems = r.sample(MIXED_ELEMS, n)
+        if r.random() < 0.5:
+            kinds = r.choice([["TRUE", "FALSE", "0", "1", "2", "-1"], ["<<>>", "<<1>>", "<<2>>", "<<1, 2>>", "<<1, 2, 3>>", "<< <<1>> >>"],
+                              ["'a'", "'1'", "1", "2", "'TRUE'", "TRUE"], ["[1]", "[2]", "[1, 2]", "[]", "<<1>>", "1"]])
+            elems = r.sample(kinds, min(len(kinds), n))
+        if r.random() < 0.6:
+            coll, kw, extra = "<< " + ", ".join(elems) + " >>", "", "seen == list(<< %s >>)" % ", ".join(elems)
+        else:
+            coll, kw, extra = "<<< " + ", ".join("%s => %d" % (e, i) for i, e in enumerate(elems)) + " >>>", "keys ", "TRUE"
+        src = ORDER_PROG.replace("{C}", coll).replace("{KW}", kw).replace("{EXTRA}", extra)
+        # precondition (so that nothing beyond the statement is demanded): on these very elements the language's <
+        # must be a strict total order -- mixed kinds fall back to text order, which can be cyclic (10 < date < 3)
+        lst = "[" + ", ".join(elems) + "]"
+        pre, _, _ = R.run_text("def l = unique(%s); [[a < b for b in l] for a in l]" % lst)
+        if pre[0] != "value" or not strict_total(pre[1]):
+            ctx.count("order_programs_skipped_no_total_order")
+            continue
+        real, rlog, o = R.run_text(src)
+        ctx.count("order_programs")
+        ctx.case(("order", src))
+        if real[0] != "value":
+            if real[0] in ("host", "hang", "syntax"):
+                ctx.violation("C04:enumeration-order:escape-%s" % real[0], "%s -> %s %s" % (src[:500], real, core.safe_str(o.exc, 100)), {"src": src})
+            else:
+                ctx.count("order_programs_error")
+            continue
+        if real[1] != ("list", (("bool", True), ("bool", True), ("bool", True))):
+            which = ["not-ascending", "comprehension-differs", "list-differs"]
+            bad = [w for w, v in zip(which, real[1][1]) if v != ("bool", True)]
+            ctx.violation("C04:enumeration-order:%s:%s" % ("map-keys" if kw else "set", "+".join(bad)),
+                          "%s -> %r" % (src[:700], real[1]), {"src": src})
+
+
 def finalize(merged, tier):
     c = merged["counters"]
     reasons = []
     if c.get("harness_syntax_errors", 0):
         reasons.append("%d generated programs did not parse (harness defect)" % c["harness_syntax_errors"])
-    for k in ("differential_comparisons", "comprehension_loop_pairs", "log_events"):
+    for k in ("differential_comparisons", "comprehension_loop_pairs", "log_events", "order_programs"):
         if c.get(k, 0) == 0:
             reasons.append("monitor counter %s is zero" % k)
     disc = {m: c.get("discriminates_" + m, 0) for m in sorted(set(MODES + COMP_MODES))}
